@@ -136,6 +136,21 @@ impl ast::BinOpKind {
     }
 }
 
+impl ast::BinOpKind {
+    /// Integer division and remainder by zero have no value; callers must report this
+    /// instead of calling [`Self::const_eval`] (which would panic).
+    pub fn is_int_division_by_zero(&self, b: &ScalarValue) -> bool {
+        matches!(self, token![binop /] | token![binop %]) && matches!(b, ScalarValue::Int(0))
+    }
+}
+
+pub fn division_by_zero_error(span: crate::pos::Span) -> crate::diagnostic::Diagnostic {
+    error!(
+        message("const evaluation error"),
+        primary(span, "division by zero")
+    )
+}
+
 fn handle_shift_rhs(x: i32) -> u32 {
     // FIXME: we would ideally warn on x out of range but it's hard to get an emitter here...
     //        (also it might warn multiple times)
@@ -233,6 +248,10 @@ impl ast::VisitMut for Visitor<'_, '_> {
 
             ast::Expr::BinOp(a, op, b) => {
                 if let (Some(a_value), Some(b_value)) = (a.to_const(), b.to_const()) {
+                    if op.is_int_division_by_zero(&b_value) {
+                        self.errors.set(self.ctx.emitter.emit(division_by_zero_error(e.span)));
+                        return;
+                    }
                     e.value = op.const_eval(a_value, b_value).into();
                 };
             },
